@@ -66,17 +66,20 @@ BASE2 = peg.G([
                                         ('field', 'cnt', ('call', 'Idt', [('rep', ('lit', 'Q'), None, 'wpar')], []))]),
     ('rule', 'Use', None, ('let', 'kvar', ('ref', 'Num'), ('seq', [
         _cap('kvar + 1'), ('call', 'Idt', [('rep', ('lit', 'a'), 'kvar', 'kvar')], []),
-        ('right', ('lit', '-'), ('call', 'Idt', [('apply', ('ref', 'Tok'), ('py', 'lambda w: (w, kvar)'))], []))]))),
+        # (string literals as arguments too: they are wrapped into objects of their own by generated code)
+        ('right', ('call', 'Idt', [('lit', '-')], []), ('call', 'Idt', [('apply', ('ref', 'Tok'), ('py', 'lambda w: (w, kvar)'))], []))]))),
     ('rule', 'start', None, ('seq', [('ref', 'Box'), ('lit', ';'), ('call', 'Gen', [('ref', 'Tok'), ('py', '1')], []), ('lit', ';'),
-                                     ('ref', 'Use'), ('opt', ('right', ('lit', ';'), ('call', 'Tpl', [('ref', 'Tok'), ('py', '2')], [])))])),
+                                     ('ref', 'Use'), ('opt', ('right', ('lit', ';'), ('call', 'Tpl', [('ref', 'Tok'), ('py', '2')], []))),
+                                     ('opt', ('right', ('lit', '!'), ('call', 'Gen', [('lit', 'b')], [('wpar', ('py', '0'))])))])),
 ])
 ROLES2 = {'h:field': 'first', 'h:letfield': 'hidden', 'h:param_parser': 'ppar', 'h:param_value': 'vpar', 'h:cparam_parser': 'qpar',
-          'h:cparam_value': 'wpar', 'h:letvar': 'kvar'}
-INPUTS2 = ['ab2aa;b;1a-ab', 'ab2aa;b;1a-ab;a.b', 'a0;a;0-b', 'a1a;b;2aa-a;ab.ab', '', 'ab', 'a1a;;', 'ab2a;b;1a-ab', 'ab2aa;b;1-ab',
+          'h:cparam_value': 'wpar', 'h:letvar': 'kvar', 'h:rule': 'Tok', 'h:rule2': 'Use', 'h:class': 'Box', 'h:pclass': 'Gen',
+          'h:template': 'Tpl'}
+INPUTS2 = ['ab2aa;b;1a-ab', 'ab2aa;b;1a-ab;a.b', 'ab2aa;b;1a-ab;a.b!b', 'a0;a;0-b!b', 'a0;a;0-b', 'a1a;b;2aa-a;ab.ab', '', 'ab', 'a1a;;', 'ab2a;b;1a-ab', 'ab2aa;b;1-ab',
            'ab2aa;b;1a-ab;a.', 'b3aaa;ab;1a-b']
 ENTRY_CALLS2 = [('Use', None, ['1a-ab', '2a-a', '0-b']), ('Box', None, ['ab2aa', 'a0', 'b9']), ('Gen', ('Tok', 1), [])]
-ENTRY_CALLS2 = ENTRY_CALLS2[:2]
-CLASS_ROLES = ('class', 'pclass', 'vclass')
+ENTRY_CALLS2 = ENTRY_CALLS2[:2] + [('Tok', None, ['ab', 'abZ'])]
+CLASS_ROLES = ('class', 'pclass', 'vclass', 'h:class', 'h:pclass')
 FIELD_ROLES = ('field', 'field2', 'h:field')
 INPUTS = ['ab2aa;b;ab-ba-a', 'ab2aa;3;ab-b-a;a1a,b,', 'a0;a;b-a-ab', 'ab2aa;b;ab-ba-ab', 'a1a;b;a-a-b;b3aaa,a', '', 'ab',
           'a1a;;', 'a1a;b;a-a', 'b9;a;a-b-b', 'a1a;b;a-a-b#aa', 'a1a;b;a-a-b;b#a']
